@@ -31,10 +31,11 @@ type model struct {
 	nver    int
 	vslots  []vslot
 	verOn   map[string]bool
+	own     map[string]string // bucket -> object ownership setting as believed
 }
 
 func newModel() *model {
-	return &model{objs: map[string]map[string][]byte{}, verOn: map[string]bool{}}
+	return &model{objs: map[string]map[string][]byte{}, verOn: map[string]bool{}, own: map[string]string{}}
 }
 
 var bucketPool = []string{"bk-alpha", "bk-beta", "bk.gamma"}
@@ -212,6 +213,7 @@ func (p *prog) genCreateBucket() *op {
 		req: bktReq("PUT", b, "", hdr, nil),
 		onAck: func() {
 			p.m.addBucket(b)
+			p.m.own[b] = ownership
 			if lock {
 				p.m.verOn[b] = true
 			}
@@ -521,6 +523,9 @@ func (p *prog) genGet(head bool) *op {
 		o.skip = func(p *prog) bool { return p.P.vers[vs.name] == "" || p.D.vers[vs.name] == "" }
 		o.req = func(s *side) *s3c.Req {
 			v := s.vers[vs.name]
+			if s == p.E {
+				v = p.P.vers[vs.name] // the endpoint's version ids are the ones the proxy handed out
+			}
 			if v == "" {
 				v = "no-such-version"
 			}
@@ -1226,7 +1231,8 @@ func (p *prog) genOwnership() *op {
 	case 0, 1:
 		v := p.pick("BucketOwnerPreferred", "ObjectWriter", "BucketOwnerEnforced")
 		return &op{kind: "put-ownership-controls", class: ec + ":" + v, eclass: ec, desc: "PUT /" + b + "?ownershipControls " + v, mut: true, bucket: b, dom: "cfg",
-			req: bktReq("PUT", b, "ownershipControls=", nil, ownershipXML(v)),
+			req:   bktReq("PUT", b, "ownershipControls=", nil, ownershipXML(v)),
+			onAck: func() { p.m.own[b] = v },
 			onPAck: func(p *prog) {
 				p.exp["ownership:"+b] = v
 				delete(p.exp, "acl:"+b)
@@ -1307,23 +1313,26 @@ func parseACL(body []byte) (string, bool) {
 	return grantsCanon(gs, x.Owner.ID), true
 }
 
+func aclRT(b string) func(p *prog, r *s3c.Resp) []diff {
+	return func(p *prog, r *s3c.Resp) []diff {
+		want, ok := p.exp["acl:"+b]
+		if !ok {
+			return nil
+		}
+		got, pok := parseACL(r.Body)
+		p.c.Distinct("roundtrip|acl")
+		if !pok || got != want {
+			return []diff{{"acl-roundtrip:differs", got, "written through the proxy: " + want}}
+		}
+		return nil
+	}
+}
+
 func (p *prog) genACL() *op {
 	b, bOK := p.bucket()
 	ec := existClass(bOK, true)
 	if p.r.Intn(5) < 2 {
-		o := &op{kind: "get-bucket-acl", class: ec, desc: "GET /" + b + "?acl", bucket: b, dom: "cfg", body: "xml", req: bktReq("GET", b, "acl=", nil, nil),
-			rt: func(p *prog, r *s3c.Resp) []diff {
-				want, ok := p.exp["acl:"+b]
-				if !ok {
-					return nil
-				}
-				got, pok := parseACL(r.Body)
-				p.c.Distinct("roundtrip|acl")
-				if !pok || got != want {
-					return []diff{{"acl-roundtrip:differs", got, "written through the proxy: " + want}}
-				}
-				return nil
-			}}
+		o := &op{kind: "get-bucket-acl", class: ec, desc: "GET /" + b + "?acl", bucket: b, dom: "cfg", body: "xml", req: bktReq("GET", b, "acl=", nil, nil), rt: aclRT(b)}
 		if p.r.Intn(8) == 0 {
 			o.as = p.pick("alice", "bob")
 			o.class += "+as-user"
@@ -1380,6 +1389,25 @@ func (p *prog) genACL() *op {
 		class += fmt.Sprintf(":%d-grants", n)
 	}
 	want := grantsCanon(gs, owner)
+	if bOK && (p.m.own[b] == "" || p.m.own[b] == "BucketOwnerEnforced") && p.r.Intn(4) > 0 {
+		// ACLs need an ownership setting other than BucketOwnerEnforced: set it first, then the ACL
+		v := p.pick("BucketOwnerPreferred", "ObjectWriter")
+		acl := &op{kind: "put-bucket-acl", class: ec + ":" + class, eclass: ec, desc: fmt.Sprintf("PUT /%s?acl %v %s", b, hdr, body), mut: true, bucket: b, dom: "cfg",
+			req: bktReq("PUT", b, "acl=", hdr, body), onPAck: func(p *prog) {
+				if _, chg := p.exp["owner-changed:"+b]; !chg {
+					p.exp["acl:"+b] = want
+				}
+			}}
+		get := &op{kind: "get-bucket-acl", class: ec + ":after-put", desc: "GET /" + b + "?acl", bucket: b, dom: "cfg", body: "xml", req: bktReq("GET", b, "acl=", nil, nil), rt: aclRT(b)}
+		p.queue = append([]*op{acl, get}, p.queue...)
+		return &op{kind: "put-ownership-controls", class: ec + ":" + v, eclass: ec, desc: "PUT /" + b + "?ownershipControls " + v, mut: true, bucket: b, dom: "cfg",
+			req:   bktReq("PUT", b, "ownershipControls=", nil, ownershipXML(v)),
+			onAck: func() { p.m.own[b] = v },
+			onPAck: func(p *prog) {
+				p.exp["ownership:"+b] = v
+				delete(p.exp, "acl:"+b)
+			}}
+	}
 	return &op{kind: "put-bucket-acl", class: ec + ":" + class, eclass: ec, desc: fmt.Sprintf("PUT /%s?acl %v %s", b, hdr, body), mut: true, bucket: b, dom: "cfg",
 		req: bktReq("PUT", b, "acl=", hdr, body), onPAck: func(p *prog) {
 			if _, chg := p.exp["owner-changed:"+b]; !chg {
